@@ -77,6 +77,7 @@ type pxState struct {
 	transport string
 	backend  string
 	seq      int
+	abort    map[int]int  // one-shot: the next upstream GET for the resource gets only this many body bytes, then the connection is cut
 	armed    map[int]bool // one-shot: the next upstream request for the resource finds its entry deleted while the origin answers
 }
 
@@ -135,7 +136,30 @@ func (s *pxState) originHandler(w http.ResponseWriter, r *http.Request) {
 	s.log = append(s.log, entry)
 	drop := s.armed[resID]
 	delete(s.armed, resID)
+	cut, cutArmed := s.abort[resID]
+	if cutArmed && r.Method == "GET" {
+		delete(s.abort, resID)
+	} else {
+		cutArmed = false
+	}
 	s.mu.Unlock()
+	if cutArmed && ok && cp.status == 200 {
+		// an origin transfer that fails part-way: full headers and Content-Length, a prefix of the body, then EOF
+		if hj, can := w.(http.Hijacker); can {
+			conn, bw, err := hj.Hijack()
+			if err == nil {
+				full := pxBody(resID, cp.ver, cp.size)
+				if cut > len(full) {
+					cut = len(full)
+				}
+				fmt.Fprintf(bw, "HTTP/1.1 200 OK\r\nContent-Length: %d\r\nContent-Type: application/x-rv\r\nX-Origin-Ver: %d\r\nCache-Control: max-age=60\r\n\r\n", len(full), cp.ver)
+				bw.Write(full[:cut])
+				bw.Flush()
+				conn.Close()
+				return
+			}
+		}
+	}
 	if drop {
 		// the environment (eviction, cleanup, an operator) removes the entry of exactly this request's key
 		// while the upstream exchange is in progress
@@ -438,6 +462,7 @@ func init() {
 					s.p = p
 					s.res = map[int]*pxRes{}
 					s.armed = map[int]bool{}
+					s.abort = map[int]int{}
 					s.log = nil
 					s.origin = httptest.NewServer(http.HandlerFunc(s.originHandler))
 					s.proxySrv = httptest.NewServer(p)
@@ -601,6 +626,17 @@ func init() {
 					ms, _ := strconv.ParseInt(f[2], 10, 64)
 					s.hooks().VerifShiftClock(time.Duration(ms) * time.Millisecond)
 					return "shifted"
+				case "abort": // id k : the next upstream GET for resource id is answered with k body bytes and a cut connection
+					id, _ := strconv.Atoi(f[2])
+					k, _ := strconv.Atoi(f[3])
+					o.Count("op:abort")
+					s.mu.Lock()
+					if s.abort == nil {
+						s.abort = map[int]int{}
+					}
+					s.abort[id] = k
+					s.mu.Unlock()
+					return "armed"
 				case "arm": // the next upstream request for resource id finds its entry deleted mid-exchange
 					id, _ := strconv.Atoi(f[2])
 					s.mu.Lock()
@@ -791,6 +827,15 @@ func genProxyTrace(c runCfg, o *Out, emit func(...string)) {
 					// make the armed exchange likely to be a revalidation of a stale entry
 					emit("px", "shift", "130000")
 					emit("px", "req", itoa(id), "GET", "-", "-", "-", "0", "-", "-")
+				}
+			case x < 68:
+				// an origin transfer that fails part-way, then the same resource again (twice): nothing truncated may be
+				// delivered as complete or come back from the store
+				emit("px", "abort", itoa(id), itoa([]int{0, 1, 100, 776, 5000}[r.Intn(5)]))
+				emit("px", "req", itoa(id), "GET", "-", "-", "-", "0", "-", "-")
+				emit("px", "req", itoa(id), "GET", "-", "-", "-", "0", "-", "-")
+				if r.Chance(50) {
+					emit("px", "req", itoa(id), "GET", hx("bytes=0-9"), "-", "-", "0", "-", "-")
 				}
 			case x < 70:
 				// a Range request with every form of If-Range against whatever is (or is not) stored: entity tag that
